@@ -365,9 +365,9 @@ pub fn run(opts: &Opts) -> Report {
     crate::props::committed_replays(&a, opts, &mut rep);
     crate::props::committed_replays(&b, opts, &mut rep);
     crate::props::committed_replays(&c, opts, &mut rep);
-    run_sub(&a, opts, opts.tier.pick(4000, 80_000), &mut rep);
-    run_sub(&b, opts, opts.tier.pick(1500, 30_000), &mut rep);
-    run_sub(&c, opts, opts.tier.pick(3000, 50_000), &mut rep);
+    run_sub(&a, opts, opts.tier.pick(10_000, 160_000), &mut rep);
+    run_sub(&b, opts, opts.tier.pick(3000, 50_000), &mut rep);
+    run_sub(&c, opts, opts.tier.pick(8000, 100_000), &mut rep);
     rep
 }
 
